@@ -32,6 +32,7 @@ type Engine struct {
 	repo    string
 	specUses map[*VC]map[string]bool
 	nonNilGlobals map[*ssa.Global]bool
+	aliases map[string]map[string]string // package path -> import alias -> import path
 }
 
 func newEngine(repo string) *Engine {
@@ -53,6 +54,19 @@ func (eng *Engine) load(patterns []string, overlay map[string][]byte) error {
 		}
 	}
 	eng.pkgs = pkgs
+	eng.aliases = map[string]map[string]string{}
+	for _, p := range pkgs {
+		m := map[string]string{}
+		for _, f := range p.Syntax {
+			for _, im := range f.Imports {
+				path := strings.Trim(im.Path.Value, `"`)
+				if im.Name != nil {
+					m[im.Name.Name] = path
+				}
+			}
+		}
+		eng.aliases[p.PkgPath] = m
+	}
 	prog, spkgs := ssautil.Packages(pkgs, ssa.GlobalDebug|ssa.BareInits)
 	eng.prog = prog
 	eng.spkgs = spkgs
@@ -222,6 +236,11 @@ func (eng *Engine) box(vc *VC, t types.Type, comps []string) []string {
 		un := fmt.Sprintf("unbox!%d!%d", tag, i)
 		vc.declFun(un, []Sort{SInt}, s)
 		vc.assert(sEq(app(un, ref), comps[i]))
+	}
+	if _, isSlice := t.Underlying().(*types.Slice); isSlice && len(comps) == 4 {
+		// dynlen(x): length of the slice held by an interface value
+		vc.declFun("dynlen", []Sort{SInt}, SInt)
+		vc.assert(sEq(app("dynlen", ref), comps[2]))
 	}
 	return []string{sInt(int64(tag)), ref}
 }
@@ -408,6 +427,19 @@ func (eng *Engine) verifyFunc(fn *ssa.Function, con *Contract, mode string) *VC 
 			}
 		}
 	}
+	// Go type safety: reference parameters whose element types differ denote different
+	// allocations (assumption: no two parameters of different types point into one enclosing object)
+	for i, p := range fn.Params {
+		for j := i + 1; j < len(fn.Params); j++ {
+			q := fn.Params[j]
+			ti, oki := refElem(p.Type())
+			tj, okj := refElem(q.Type())
+			if oki && okj && !types.Identical(ti, tj) {
+				vc.assert(sOr(sEq(fr.params[i][0], "0"), sNot(sEq(fr.params[i][0], fr.params[j][0]))))
+				vc.assumptions["reference parameters of different element types do not alias (Go type safety; interior overlap of differently typed parameters excluded)"] = true
+			}
+		}
+	}
 	env := fr.newEnv(&fr.entry)
 	for _, c := range con.Requires {
 		g, err := env.evalBool(c.E)
@@ -465,8 +497,8 @@ func (eng *Engine) relevantAxioms(vc *VC) []string {
 		names := specNames(ax.E, nil)
 		ok := true
 		for _, n := range names {
-			if _, isSpec := eng.cs.Specs[n]; isSpec {
-				if sf := eng.cs.Specs[n]; sf.Body == nil {
+			if sf, isSpec := eng.cs.lookupSpec(ax.Pkg, n); isSpec {
+				if sf.Body == nil {
 					if _, declared := vc.declared[n]; !declared {
 						ok = false
 					}
@@ -478,6 +510,11 @@ func (eng *Engine) relevantAxioms(vc *VC) []string {
 		}
 		st := State{mem: map[Sort]string{}, brk: "brk0"}
 		env := &Env{fr: fr, st: &st, old: &st, vars: map[string]tval{}}
+		for _, p := range eng.pkgs {
+			if p.PkgPath == ax.Pkg {
+				env.pkg = p.Types
+			}
+		}
 		g, err := env.evalBool(ax.E)
 		if err != nil {
 			continue
@@ -521,4 +558,14 @@ func specNames(e Expr, acc []string) []string {
 		acc = specNames(x.B, acc)
 	}
 	return acc
+}
+
+func refElem(t types.Type) (types.Type, bool) {
+	switch tt := types.Unalias(t).Underlying().(type) {
+	case *types.Pointer:
+		return tt.Elem(), true
+	case *types.Slice:
+		return tt.Elem(), true
+	}
+	return nil, false
 }
